@@ -514,7 +514,8 @@ class Engine:
             self.stats["feas_time"] += time.time() - t0
             return False
         s = z3.Solver()
-        s.set("timeout", self.feas_timeout_ms)
+        # the abstracted query is cheap: give it a generous budget so that verdicts do not depend on machine load
+        s.set("timeout", self.feas_timeout_ms if self.precise_strings else 3000)
         if self.precise_strings:
             for c in st.defs:
                 s.add(c)
